@@ -9,7 +9,102 @@ host="$1"; shift
 cmd="$1"
 cmd="${cmd//\/var\/tmp/$FAKE_REMOTE_ROOT}"
 printf 'ssh\t%s\t%s\n' "$host" "$(printf '%s' "$1" | tr '\n' ' ')" >> "$FAKE_LOG"
+if [ -n "$FAKE_RELAY_ORDER$FAKE_CUT" ] && [[ "$cmd" == *--doer* ]]; then exec python3 "$(dirname "$0")/relay.py" "$cmd"; fi
 exec /bin/bash -c "$cmd"
+'''
+RELAY = r'''#!/usr/bin/env python3
+# relay <cmd>: runs the command (a doer) and forwards its stdout / stderr, holding the four handshake lines back so that they
+# leave in the order given by $FAKE_RELAY_ORDER, e.g. "So,n,Se,Co,Ce" (S/C = started/completed line, o/e = stdout/stderr,
+# n = an unrelated noise line on stderr, N = one on stdout); afterwards everything is passed through.
+import os, subprocess, sys, threading, time, queue, socket, struct, re
+order = (os.environ.get('FAKE_RELAY_ORDER') or 'So,Se,Co,Ce').split(',')
+# $FAKE_CUT = "<d2b|b2d>:<offset>:<fin|rst>": the TCP link boss<->doer runs through a proxy that, after exactly <offset> bytes in that
+# direction, ends the connection: fin = clean end-of-file towards the receiver (the other direction stays open), rst = abrupt reset
+CUT = os.environ.get('FAKE_CUT')
+proxy_port = None
+def start_proxy(real_port):
+    direction, offset, mode = CUT.split(':'); offset = int(offset)
+    ls = socket.socket(); ls.bind(('127.0.0.1', 0)); ls.listen(1)
+    def serve():
+        a, _ = ls.accept()                          # the boss
+        b = socket.create_connection(('127.0.0.1', real_port))   # the doer
+        def cut(dst_sock):
+            open(os.environ.get('FAKE_CUT_MARK', '/dev/null'), 'w').write('cut')
+            if mode == 'fin':
+                try: dst_sock.shutdown(socket.SHUT_WR)
+                except OSError: pass
+            else:
+                for s_ in (a, b):
+                    try: s_.setsockopt(socket.SOL_SOCKET, socket.SO_LINGER, struct.pack('ii', 1, 0)); s_.close()
+                    except OSError: pass
+        def pump(src_sock, dst_sock, counted):
+            n = 0
+            if counted and offset == 0: cut(dst_sock); return
+            while True:
+                try: data = src_sock.recv(65536)
+                except OSError: break
+                if not data:
+                    try: dst_sock.shutdown(socket.SHUT_WR)
+                    except OSError: pass
+                    break
+                if counted and n + len(data) >= offset:
+                    try: dst_sock.sendall(data[:offset - n])
+                    except OSError: pass
+                    cut(dst_sock)
+                    if mode == 'fin':
+                        while True:                  # swallow the rest of this direction
+                            try:
+                                if not src_sock.recv(65536): break
+                            except OSError: break
+                    break
+                try: dst_sock.sendall(data)
+                except OSError: break
+                n += len(data)
+        threading.Thread(target=pump, args=(a, b, direction == 'b2d'), daemon=True).start()
+        threading.Thread(target=pump, args=(b, a, direction == 'd2b'), daemon=True).start()
+    threading.Thread(target=serve, daemon=True).start()
+    return ls.getsockname()[1]
+p = subprocess.Popen(['/bin/bash', '-c', sys.argv[1]], stdout=subprocess.PIPE, stderr=subprocess.PIPE)
+qs = {'o': queue.Queue(), 'e': queue.Queue()}
+def reader(stream, k):
+    for line in iter(stream.readline, b''):
+        qs[k].put(line)
+    qs[k].put(None)
+threading.Thread(target=reader, args=(p.stdout, 'o'), daemon=True).start()
+threading.Thread(target=reader, args=(p.stderr, 'e'), daemon=True).start()
+outs = {'o': sys.stdout.buffer, 'e': sys.stderr.buffer}
+def emit(k, line):
+    outs[k].write(line); outs[k].flush(); time.sleep(0.06)
+pending = {'o': [], 'e': []}
+def next_line(k, want):
+    # the next line of stream k that is a handshake line of the wanted kind (other lines pass through at once)
+    while True:
+        line = qs[k].get()
+        if line is None:
+            return None
+        is_s = line.startswith(b'rjrssync doer v'); is_c = line.startswith(b'Waiting for incoming network connection on port ')
+        if (want == 'S' and is_s) or (want == 'C' and is_c):
+            return line
+        emit(k, line)
+for item in order:
+    if item == 'n': emit('e', b"Warning: Permanently added 'localhost' (ED25519) to the list of known hosts.\n"); continue
+    if item == 'N': emit('o', b'Last login: Sat Sep 26 12:00:00 2026 from 127.0.0.1\n'); continue
+    line = next_line(item[1], item[0])
+    if line is None: break
+    if CUT and item[0] == 'C':
+        m = re.match(rb'(Waiting for incoming network connection on port )(\d+)', line)
+        if m:
+            if proxy_port is None: proxy_port = start_proxy(int(m.group(2)))
+            line = m.group(1) + str(proxy_port).encode() + b'\n'
+    emit(item[1], line)
+def pump(k):
+    while True:
+        line = qs[k].get()
+        if line is None: break
+        outs[k].write(line); outs[k].flush()
+t1 = threading.Thread(target=pump, args=('o',)); t2 = threading.Thread(target=pump, args=('e',)); t1.start(); t2.start()
+rc = p.wait(); t1.join(); t2.join()
+sys.exit(rc)
 '''
 FAKE_SCP = r'''#!/bin/bash
 # fake scp -r <src> <host:/var/tmp>
@@ -27,7 +122,7 @@ class Sandbox:
         self.bin = os.path.join(self.dir, 'bin'); os.makedirs(self.bin)
         self.remote = os.path.join(self.dir, 'remote'); os.makedirs(self.remote)
         self.log = os.path.join(self.dir, 'fake.log'); open(self.log, 'w').close()
-        for name, body in (('ssh', FAKE_SSH), ('scp', FAKE_SCP)):
+        for name, body in (('ssh', FAKE_SSH), ('scp', FAKE_SCP), ('relay.py', RELAY)):
             p = os.path.join(self.bin, name)
             open(p, 'w').write(body); os.chmod(p, 0o755)
 
